@@ -878,7 +878,12 @@ static void run_image(const job_t* j, const decoder_t* d, void* obj, const uint8
     memset(wb, j->prefill, wn ? wn : 1);
     pixn = (size_t)pn;
     pixbuf = (uint8_t*)malloc(pixn ? pixn : 1);
-    memset(pixbuf, j->prefill, pixn ? pixn : 1);
+    // The pixel buffer is NOT filled with the job's prefill: a frame need not cover the whole canvas and a
+    // failed or truncated decode writes only some rows, so bytes the decoder never wrote would make the hash
+    // depend on the prefill.  (A pixel buffer has no write index; the property's "destination memory beyond
+    // the write index" clause is about io_buffers, whose prefill does vary.)  The work buffer and the
+    // object's own memory still take the job's prefill.
+    memset(pixbuf, 0x7E, pixn ? pixn : 1);
   }
   {
     wuffs_base__pixel_buffer pb;
